@@ -13,12 +13,14 @@ THEOREMS = [f"NumbersModel.Props.C18.{t}" for t in (
     "tokenize_lossless", "tokenize_total", "tokenize_terminates", "quotes_not_split", "dq_literal_wellformed",
     "sq_literal_wellformed", "tables_as_modelled", "dispatch_chars_end_tokens", "error_codes_ok",
     "grammar_accepted", "reader_output_accepted_partial")]
-PARTIAL = {"reader_output_accepted_partial": "clause 4 is proved for every text of the formula grammar G (grammar_accepted) and, through "
-                                             "C08's exec_compile, for every well-formed stored expression that is TokSafe: all constructors "
-                                             "except array literals, operand / function-name texts plain. Not proved: array literals and "
-                                             "references that need quoting (names with operator characters, behind a prefix, with apostrophes); "
-                                             "those are exercised on all fixture formulas and on C08/C09 generated texts (oracle), and the "
-                                             "apostrophe case is a recorded finding"}
+PARTIAL = {"NumbersModel.Props.C18.reader_output_accepted_partial":
+           "clause 4 is proved for every text of the formula grammar G (grammar_accepted: plain operands, string literals, "
+           "references with quoted names alone / behind a Table:: prefix / on either side of a range colon, all operators, "
+           "lists, calls with empty arguments, array literals) and, through C08's exec_compile, for every well-formed stored "
+           "expression that is TokSafe: every constructor incl. array literals, number and function-name texts plain, "
+           "reference texts plain or of the quoted shapes the reader prints (refOK). Not covered: a name containing an "
+           "apostrophe (expand_ref prints the apostrophe tripled, which the tokenizer rejects: recorded finding, exercised) and a table / "
+           "sheet name that itself contains operator characters (printed unquoted by the reader)"}
 RULE = ("quick: every string of length <= 3 over a 35-symbol alphabet (letters, digits, E, ., space, newline, all operator/"
         "separator glyphs incl. typographic ones, both quotes, # $ !), every string of length <= 8 over {\",',a,:,space}, "
         "every string of length <= 6 over {1,9,0,.,E,+,-,newline} (scientific-notation regex), seeded strings of length 4..40 "
@@ -33,9 +35,11 @@ MANIFEST = {
             "quote, `:`-joined for names) are Lean theorems about a model of Tokenizer.parse and all parse_* methods with the "
             "TOKEN_ENDERS / ERROR_CODES / whitespace tables regenerated from the source. Clause 4 (accepts every formula the "
             "reader emits): grammar_accepted proves acceptance for the whole formula grammar and "
-            "reader_output_accepted_partial lifts it through C08's exec_compile to every well-formed stored expression without "
-            "array literals whose operand texts are plain; quoted references and arrays are exercised (fixture formulas, C08/C09 "
-            "generated texts), not proved. Model tied to the code by exhaustive "
+            "reader_output_accepted_partial lifts it through C08's exec_compile to every well-formed stored expression - every "
+            "constructor incl. array literals - whose reference texts are plain or of the quoted shapes the reader prints "
+            "('a-b', Table 1::'a-b', 'a-b':'c+d', alpha:'a-b', 'a-b':alpha); the domain predicate refOK is compared with an "
+            "independent Python statement exhaustively on short strings and the real tokenizer is run on everything it admits. "
+            "Names containing an apostrophe stay outside (recorded finding). Model tied to the code by exhaustive "
             "correspondence on short strings (>= 500k inputs per quick run).",
     "note": "The two string regexes and SN_RE are replaced by hand-derived scanners (the derivation is in Model/Tokenizer.lean; "
             "the pattern strings are generated and a theorem pins them, so a changed pattern breaks a proof obligation). "
@@ -73,6 +77,37 @@ def tok(Tokenizer, TokenizerError, s: str, ctx: Ctx | None = None) -> str:
                 if not ok:
                     ctx.violation("tokenizer-quote-split", f"Tokenizer({s!r}) token {v!r} is not one complete literal", {"text": s})
     return ("ok " + " ".join(f"{enc_text(t.value)}/{TYPES[t.type]}/{SUBS[t.subtype]}" for t in items)).rstrip() if items else "ok "
+
+
+def make_ref_ok(Tokenizer):
+    """independent statement of FormulaAccept.atomOK / qrefOK / refOK (the domain of clause 4's theorem)."""
+    enders = set(Tokenizer.TOKEN_ENDERS)
+
+    def plain(c):
+        return c not in enders and c not in "\"'#{("
+
+    def atom_ok(t):
+        return t != "" and all(plain(c) for c in t) and not Tokenizer.SN_RE.match(t)
+
+    chain = re.compile(r"'[^']*'(?::'[^']*')*")
+
+    def qref_ok(t):
+        i = t.find("'")
+        if i < 0:
+            return False
+        pre, rem = t[:i], t[i:]
+        if not all(plain(c) for c in pre) or not (pre == "" or pre.endswith(":")):
+            return False
+        m = chain.match(rem)
+        if not m:
+            return False
+        post = rem[m.end():]
+        if post == "":
+            return True
+        return (len(post) >= 2 and post[0] == ":" and plain(post[1]) and not re.match(r"\s", post[1])
+                and all(plain(c) for c in post[2:]))
+
+    return atom_ok, lambda t: atom_ok(t) or qref_ok(t)
 
 
 def gen_random(rng, n):
@@ -118,6 +153,9 @@ def fixture_formulas(limit_docs):
     return sorted(forms), ndocs
 
 
+TREE_WORDS: list[str] = []
+
+
 def rendered_texts(ctx: Ctx):
     """Formula / reference texts produced by the real reader from C08's and C09's generated expressions."""
     from numbers_parser.generated.functionmap import FUNCTION_MAP
@@ -133,6 +171,7 @@ def rendered_texts(ctx: Ctx):
         try:
             c08.compile_tree(real, t, nodes, words)
             texts.append(("C08", real.render(nodes, *c08.HOST)))
+            TREE_WORDS.append(" ".join(c08.tree_words(t)))
         except Exception:  # noqa: BLE001  rendering failures are C08's business
             continue
     # one fixed configuration with an apostrophe in header names (recorded finding), independent of the seed
@@ -250,6 +289,39 @@ def run(ctx: Ctx):
             pass
     batch("formula / reference texts rendered by the reader from C08 and C09 generated expressions", sorted({f for _, f in rend}))
     ctx.extra["rendered_texts"] = {"count": len(rend), "rejected": rej}
+
+    # clause 4, the theorem's domain: (a) every generated stored expression (arrays, lists, calls, empty arguments) is
+    # TokSafe; (b) refOK as stated independently in Python = the Lean predicate, exhaustively on short strings over a
+    # quote / colon / operator alphabet and on every reference text the real reader printed; (c) the REAL tokenizer
+    # accepts every text refOK admits, alone and inside a formula.
+    ctx.correspond("generated stored expressions are inside TokSafe (domain of reader_output_accepted_partial)",
+                   ["formula toksafe " + w for w in TREE_WORDS], ["ok 1"] * len(TREE_WORDS))
+    TREE_WORDS.clear()
+    atom_ok, ref_ok = make_ref_ok(Tokenizer)
+    ra = "a:' -1E"
+    Lr = 6 if ctx.quick else 7
+    cand = ["".join(t) for n in range(0, Lr + 1) for t in itertools.product(ra, repeat=n)]
+    cand += sorted({f for src, f in rend if src == "C09"})
+    cand += ["'a-b'", "Table 1::'a-b'", "S::T::'a+b':'c×d'", "alpha:'a-b'", "'a-b':alpha", "'a-b':\u00a0x", "1:'a-b'", "1E:'a'",
+             "'a'\n", "Bob" + 3 * "'" + "s", "'it''s'", "T::'a':'b':'c'", "'a':'b':c", "'a':b:'c'", "x::'a' ", "'a'::b", "1.5E", "2E\n"]
+    req, out, admitted = [], [], 0
+    for t in cand:
+        ok = ref_ok(t)
+        req.append("tok refok " + enc_text(t))
+        out.append(f"ok {int(ok)}")
+        req.append("tok atomok " + enc_text(t))
+        out.append(f"ok {int(atom_ok(t))}")
+        if ok:
+            admitted += 1
+            for f in (t, f"SUM({t},{{{t};1}})+{t}%"):
+                try:
+                    Tokenizer(f)
+                except Exception as e:  # noqa: BLE001
+                    ctx.violation("refok-text-rejected", f"a reference text inside the theorem's domain is rejected by the "
+                                  f"tokenizer ({exc_name(e)}): {f!r}", {"text": f})
+    ctx.correspond(f"refOK / atomOK: independent Python statement vs Lean, all strings of length <= {Lr} over {ra!r} + every "
+                   "reference text printed by the real reader", req, out)
+    ctx.extra["refOK"] = {"candidates": len(cand), "admitted": admitted}
 
 
 def replay(data):
